@@ -5,6 +5,7 @@ import NLE.Model.Life
 import NLE.Model.HB
 import NLE.Model.Conn
 import NLE.Model.ValAcc
+import NLE.Model.Lease
 /-
   `trace-begin` … lines … `trace-end`: parse a harness trace, run the world model and the monitors,
   answer one line:  `T <events> <parse-error-line|0> <store-mismatches> <fails>` followed by tab-separated
@@ -72,6 +73,18 @@ def accVal (evs : List TEv) : Option (Nat × String) :=
       | .error msg => some (k, msg)
   go {} 1 evs
 
+/-- The lease model speaks about scenarios whose generator promised: responsive store, no outside writer, no preemption. -/
+def accLease (evs : List TEv) : Option (Nat × String) :=
+  let promised := evs.any fun e => match e.ev with | .hyp r o p _ _ _ _ => r && o && p | _ => false
+  if !promised then none else
+  let rec go (s : Lease.State) (k : Nat) : List TEv → Option (Nat × String)
+    | [] => none
+    | e :: es =>
+      match Lease.step s e with
+      | .ok s' => go s' (k + 1) es
+      | .error msg => some (k, msg)
+  go {} 1 evs
+
 def sanitize (s : String) : String :=
   String.ofList (s.toList.map fun c => if c == '\t' || c == '\n' || c == '|' then ' ' else c)
 
@@ -81,7 +94,7 @@ def TraceAcc.finish (a : TraceAcc) : String :=
   let store := m.w.storeMismatch.reverse.map fun s => s!"STORE|store-model|0|{sanitize s}"
   let cov := m.w.cov.map fun (k, n) => s!"COV|{k}|{n}|"
   -- implementation models: does the model accept (= can it produce) this trace?
-  let acc := [("Own", accOwn a.evs.toList), ("Life", accLife a.evs.toList), ("HB", accHB a.evs.toList), ("Conn", accConn a.evs.toList), ("Val", accVal a.evs.toList)]
+  let acc := [("Own", accOwn a.evs.toList), ("Life", accLife a.evs.toList), ("HB", accHB a.evs.toList), ("Conn", accConn a.evs.toList), ("Val", accVal a.evs.toList), ("Lease", accLease a.evs.toList)]
   let accItems := acc.map fun (name, r) =>
     match r with
     | none => s!"ACC|{name}|0|ok"
